@@ -101,7 +101,10 @@ check("C18", "model_checking",
       "pristine state and from a state with non-default globals, depth 3 (quick) / 4 (thorough); every transition replays the history "
       "on fresh real objects after reset(); states are de-duplicated by the reference model's state (globals, parameter values, slot "
       "facts, predicted cache contents); every observation must equal the table of what a fresh interpreter computes (two fresh "
-      "interpreters, opposite orders, must agree); repeated weak_form()/mass_matrix() must return the identical object.",
+      "interpreters, opposite orders, must agree); repeated weak_form()/mass_matrix() must return the identical object. Second layer: "
+      "every public boundary / potential / far-field factory x wavenumber class (none, real, complex, purely imaginary) assembled with an "
+      "explicit parameter object under three global settings (before and after construction), with the same values set globally, and in "
+      "single and double precision: all must agree (orders are asserted observable for every non-sparse factory).",
       "DESIGN.md 4/C18 and B.4",
       "Trusted: the inventory of process-wide mutable state (DESIGN 2) as the argument that the canonical form merges only states with "
       "equal futures; lenient reading of 'parameter object given at construction' (values at construction or at first assembly).",
